@@ -83,7 +83,8 @@ claim("C05", "proof", T1 + " (dictionaries as maps incl. collections.defaultdict
       "calc_freqs (table has exactly the counted splits, each count / total weight), _get_split_frequencies (never stale), __getitem__ (0.0 for a split in no tree); "
       "the two summary tables (edge lengths, node ages) are never served stale: their getters return a table computed from the trees counted NOW, under a cache-protocol "
       "invariant (one shared staleness counter) that counting, merging and the frequency functions preserve; on every summary route of treecollectionmodel / treesum "
-      "the caller's is_bipartitions_updated reaches count_splits_on_tree unchanged (AST obligation per call site: a summary never trusts an encoding the caller did not vouch for). "
+      "the caller's is_bipartitions_updated reaches count_splits_on_tree unchanged (AST obligation per call site: a summary never trusts an encoding the caller did not vouch for); use_tree_weights reaches the distribution that weighs the trees from every "
+      "function and class of treecollectionmodel / treesum / sumtrees that accepts it, and TreeList._get_tree_array hands every option of TreeArray.from_tree_list on under its own name. "
       "Bounded (T2): consensus all-and-only / maximal-greedy, spanning, rooting, support / length / age summaries (also after incremental filling), collapse, maximum credibility.",
       "ASSUMED contract: Tree.encode_bipartitions lists every split once (C01; fails exactly on the recorded finding C05-two-leaf-unrooted); floats are reals; with zero trees "
       "counted the table holds 1.0 (taken from the code: the fraction is undefined); the CONTENT of the summary tables is abstracted (calc_* recompute from every value list: "
@@ -93,7 +94,8 @@ claim("C06", "proof", T1 + " (lists modelled by their length; the summary as map
       "Proved (T1): TreeArray.update/extend/__iadd__ keep the four per-tree lists equally long, grow them by the stated amount, never refuse arrays compatible in the property's "
       "sense (equal settings; equal rooting or one side empty with undefined rooting), and merge the summaries componentwise (per-split counts, tree and weight totals added: "
       "SplitDistribution.update under contract) while the ARGUMENT keeps its trees and its summary; a + b is a new collection holding both operands' trees and the sum of their "
-      "summaries, the operands unchanged; add_tree/append/insert/validate_rooting keep alignment; no two collections ever share a per-tree list object (ownership, on the AST "
+      "summaries, the operands unchanged, built under the operands' age settings (forcing option and tip ages reach every collection a collection builds: AST obligation per "
+      "site); add_tree/append/insert/validate_rooting keep alignment; no two collections ever share a per-tree list object (ownership, on the AST "
       "of the whole class); the SumTrees worker/collation code never takes a polled 'empty' for 'no work left'. Lean: componentwise addition makes the merged view independent of "
       "arrival order, of the partition into sub-collections, and of empty sub-collections. Bounded (T2): every partition/arrival order/interleaving end to end, content "
       "alignment, SumTrees collation loop with fake queues, CLI smoke.",
@@ -117,7 +119,8 @@ claim("C09", "exploration", T2,
       "writers/readers and xml.etree are outside contract reach (DESIGN.md section 6); two recorded known findings", "DESIGN.md section 5 C09")
 claim("C10", "proof", T1 + " (dictionaries as maps; quantified representation invariant); " + T2,
       "Proved (T1): add_taxon, remove_taxon, clear, sort, reverse, taxon_bitmask, accession_index, all_taxa_bitmask preserve the namespace invariant NS, never change the "
-      "index/bit of a remaining member, and give a new member a fresh index >= the old counter (no reuse, no sharing). Bounded (T2): every history of <= 2 (thorough 3) "
+      "index/bit of a remaining member, and give a new member a fresh index >= the old counter (no reuse, no sharing); every label-lookup method hands the call's "
+      "is_case_sensitive to the one function that matches labels (AST obligation per call site). Bounded (T2): every history of <= 2 (thorough 3) "
       "operations over duplicate/case-variant labels, bitmask<->taxa round trips, renderings, lookups, copies.",
       "the member list is modelled by its length at T1; label lookups, textual renderings and copies are bounded only", "DESIGN.md section 5 C10")
 claim("C11", "proof", T1 + " (dictionaries as maps, loops over dictionaries and over key snapshots, reference lists for the nodes a tree iterates over); " + T2,
@@ -148,7 +151,8 @@ claim("C13", "exploration", T2 + "; a small T1 part (AST obligations, no solver)
 claim("C14", "proof", T1 + " (heap theory B, bit masks as sets, Python iterators as (list snapshot, position), the **kwargs dictionary with literal keys); " + T2,
       "Proved (T1, MRCA clause): for tree.mrca(leafset_bitmask=q, is_bipartitions_updated=True) on an encoded tree the result is None exactly when q is not contained in the "
       "seed node's mask; otherwise the returned node's mask contains q and no child of it does (the deepest node over the taxa), on each of the three ways the search loop "
-      "returns (exact match after stepping down unifurcations, partial overlap, iterator exhausted); patristic_distance hands its is_bipartitions_updated to mrca unchanged (AST). "
+      "returns (exact match after stepping down unifurcations, partial overlap, iterator exhausted); patristic_distance hands its is_bipartitions_updated to mrca unchanged, and every function of the distance matrix hands is_weighted_edge_distances / "
+      "is_normalize_by_tree_size unchanged to the one it delegates to (AST, one obligation per call site). "
       "Bounded (T2, deciding for the rest): path sums, edge counts and turning nodes for "
       "every pair, mrca through taxa / labels and the distance matrix, MPD / MNTD, NJ on additive and UPGMA on ultrametric matrices, CSV round trip.",
       "ASSUMED (requires): the encoding facts -- an internal mask is the union of its children's (C01), sibling masks disjoint, no empty mask (every leaf carries a taxon), tree "
